@@ -2,7 +2,7 @@
    Case:  ABF nd lower*nd width*nd nx*nd periodic*nd full min update cap maxf*nd szd same sub*nd hidej other*nd scaled sfac*(prod nx)
               tsf late ndata (cnt0*(prod nx) grad0*(prod nx * nd))*ndata nevents event*nevents
           late = number of steps the engine made before the bias was defined (0: defined at the start)
-          event = 0 x*nd e*nd o*nd j*nd boundary apply      (a step)
+          event = 0 x*nd e*nd o*nd j*nd boundary apply w*nd (a step; w = forces of the biases bypassing the extended Lagrangian)
                 | 1 cnt*(prod nx) grad*(prod nx * nd)       (restart: state file loaded into a new instance)
                 | 2 cnt*(prod nx) grad*(prod nx * nd)       (reload: state file loaded into the running instance)
    Output (one line): per step "bin .. fbin .. cf .. tf .. af .. cnt .. sum .. go .." joined by " ; ",
@@ -80,7 +80,8 @@ let () =
                | 0 ->
                  let x = nflist nd in let e = nflist nd in let o = nflist nd in let j = nflist nd in let b = nb () in
                  let a = nb () in
-                 EvStep { i_x = x; i_e = e; i_o = o; i_j = j; i_boundary = b; i_apply = a }
+                 let w = nflist nd in
+                 EvStep { i_x = x; i_e = e; i_o = o; i_j = j; i_boundary = b; i_apply = a; i_w = w }
                | 1 -> EvRestart (read_dataset ())
                | _ -> EvReload (read_dataset ())) in
            let ixs = all_indices nx in
